@@ -259,7 +259,18 @@ class Processor:
         func: Callable = operator.attrgetter(key)
 
         try:
-            result = func(self)
+            # An argument of a model (or an entry of an argument) is read from its mapping.
+            # Note: 'operator.attrgetter' returns the method for an argument called 'values',
+            # 'keys', ... and fails for an entry of a dictionary
+            try:
+                obj, att = _get_obj_att(self, key)
+            except (KeyError, AttributeError):
+                obj, att = None, ""
+
+            if isinstance(obj, Mapping) and att in obj:
+                result = obj[att]
+            else:
+                result = func(self)
         except (KeyError, ValueError):
             if default is not MISSING:
                 return default
